@@ -2,6 +2,9 @@ package props
 
 import (
 	"fmt"
+	"math/rand"
+	"reflect"
+	"strings"
 
 	"verifharness/core"
 	"verifharness/world"
@@ -42,7 +45,41 @@ func (p c06) Run(c *core.Ctx) {
 	}
 	lean := LeanProviders(c.Rng)
 	repairUnsatisfiable(c, g, holders, 0.85, lean...)
-	runModelCase(c, g, holders, 4, true, nil, nil, lean)
+	var pre func(r *world.Run)
+	if c.Rng.Intn(4) == 0 {
+		// constructors that pre-populate slice-typed points (a default element, a hand-wired registered one):
+		// the point still ends up with exactly its candidates, each once
+		seed := c.Rng.Int63()
+		pre = func(r *world.Run) {
+			rng := rand.New(rand.NewSource(seed))
+			for i, n := range r.Nodes {
+				if world.Palette[g.Sc.Nodes[i].Type].Lazy {
+					continue // a lazy holder may never be created: its fields then stay as its constructor left them
+				}
+				for slot, ts := range g.Sc.Nodes[i].Tags {
+					si := world.SlotByName(slot)
+					if !strings.HasPrefix(si.Kind, "slice") || (ts.Tag != "wire" && ts.Tag != "func") || rng.Intn(2) == 0 {
+						continue
+					}
+					// (an optional point without any candidate is left untouched, pre-set content included: only
+					// required points are pre-populated - they either receive their candidates or fail the start)
+					if _, args := world.ParseTag(ts.Val); contains(args["required"], "false") {
+						continue
+					}
+					f := reflect.ValueOf(n.Slot()).Elem().FieldByName(slot)
+					for tries := 0; tries < 6; tries++ {
+						cand := reflect.ValueOf(r.Nodes[rng.Intn(len(r.Nodes))])
+						if cand.Interface() != any(n) && cand.Type().AssignableTo(f.Type().Elem()) {
+							f.Set(reflect.Append(f, cand))
+							c.Count("pre_populated_slice_points", 1)
+							break
+						}
+					}
+				}
+			}
+		}
+	}
+	runModelCase(c, g, holders, 4, true, nil, nil, lean, pre)
 }
 
 // runModelCase starts the scenario under `orders` order settings and compares each with the model.
@@ -52,6 +89,9 @@ func runModelCase(c *core.Ctx, g *world.G, holders []any, orders int, strict boo
 	// modelView rewrites the scenario's tags to what the reference model should assume (e.g. after a user
 	// post-processor changed arguments at run time) and returns the undo
 	var modelView func(sc *world.Scenario) func()
+	// preStart runs after the components were instantiated and before App.Run (e.g. a constructor that
+	// pre-populates fields)
+	var preStart func(r *world.Run)
 	for _, m := range more {
 		switch x := m.(type) {
 		case func(exp world.Expect) bool:
@@ -62,6 +102,8 @@ func runModelCase(c *core.Ctx, g *world.G, holders []any, orders int, strict boo
 			providers = x
 		case func(sc *world.Scenario) func():
 			modelView = x
+		case func(r *world.Run):
+			preStart = x
 		}
 	}
 	sc := g.Sc
@@ -77,7 +119,11 @@ func runModelCase(c *core.Ctx, g *world.G, holders []any, orders int, strict boo
 				resetHolder(h)
 			}
 		}
-		r := world.Start(sc, world.Options{Extra: append(append([]any{}, holders...), providers...)})
+		r := world.Build(sc, world.Options{Extra: append(append([]any{}, holders...), providers...)})
+		if preStart != nil {
+			preStart(r)
+		}
+		r.Go()
 		c.Count("starts", 1)
 		c.Count("outcome_"+r.Outcome(), 1)
 		undo := func() {}
